@@ -122,7 +122,7 @@ def run(ctx, env):
     ctx.rule("R15.2", "inside a repetition (CFG loop body, or closure handed to fold/try_fold/map/many0/count…) no clone/to_vec/cloned of a heap-owning value whose source is defined outside the repetition")
     ctx.rule("R15.5", "a template read from the cache is borrowed by the decoders, never deep-copied: its size is independent of the data being decoded, so a copy per data flowset / set costs (number of sets) x (template size) for a buffer of minimal sets")
     ctx.rule("R15.3", "the per-packet result does not carry an owned copy of the whole remaining buffer")
-    ctx.rule("R15.4", "every cache write is dominated by a validity guard that examines the field_length of all template fields (rejects zero-length fields), so each decoded field consumed >= 1 byte")
+    ctx.rule("R15.4", "fields of declared length zero cannot inflate the output: every cache write is dominated by a validity guard that examines the field_length of all template fields (rejects zero-length fields), or the decoder reading that cache decodes the template's field lists under a progress-checked repetition (nom many0 / many1 fail on an element that consumes nothing)")
     if not roots_or_fail(ctx, prog, "R15.1", PARSE_ROOTS):
         return
     bodies = reach_bodies(prog, ALL_ROOTS)
@@ -317,7 +317,28 @@ def run(ctx, env):
                     why = "dominated by %s which checks field_length of all fields" % e[2].path
                 else:
                     why = "dominated by %s, which does not require every field_length > 0 (a single non-zero field suffices)" % e[2].path
+        if not ok:
+            # ... or the decoder that reads this cache decodes the template's fields under a progress-checked
+            # repetition: nom's many0 / many1 fail when an element parser succeeds without consuming, so a
+            # zero-length field fails the flowset instead of being materialised
+            dec = DECODER_OF.get((w["adt"].rsplit("::", 1)[1], w["field"]))
+            if dec is not None and any(r["field"] == w["field"] and r["adt"] == w["adt"] and r["body"].path.startswith(dec) for r in ca.reads):
+                from .layout import Layouts, term_s
+                if not hasattr(an, "_lay15"):
+                    an._lay15 = Layouts(prog, an)
+                L = an._lay15.parser_layout(dec + "::parse_be")
+                steps = [st for st in (L["steps"] if L["ok"] else []) if st["term"][0] != "vec"]
+                if steps and all(st["term"][0] in ("many0", "many1") for st in steps):
+                    ok = True
+                    why = "zero-length fields are admitted to the cache, but %s decodes every field list under nom's progress-checked %s: a field that consumes nothing fails the flowset" % (
+                        dec.rsplit("::", 2)[-2] + "::" + dec.rsplit("::", 1)[1], sorted(set(st["term"][0] for st in steps)))
+                elif steps:
+                    why += "; %s decodes its fields by %s, which has no per-field progress requirement" % (dec.rsplit("::", 1)[1], sorted(set(st["term"][0] for st in steps)))
         ctx.ob("R15.4", w["adt"], "zero-length-fields-rejected:%s" % w["field"], ok, why + " (write at %s)" % b.path, site=b.line(w["block"]))
+
+
+DECODER_OF = {("V9Parser", "templates"): "variable_versions::v9::Data", ("V9Parser", "options_templates"): "variable_versions::v9::OptionsData",
+              ("IPFixParser", "templates"): "variable_versions::ipfix::Data", ("IPFixParser", "options_templates"): "variable_versions::ipfix::OptionsData"}
 
 
 def short_ty(ty):
